@@ -228,7 +228,7 @@ def gen_case(rng):
 
 
 def run(ctx):
-    total = 330 if ctx.tier == "quick" else 9000
+    total = 420 if ctx.tier == "quick" else 15000
     for _ in range(ctx.share(total)):
         if not ctx.time_left():
             break
